@@ -81,3 +81,49 @@ def rel_snapshot(path):
     if os.path.exists(path):
         return {"": open(path, "rb").read()}
     return {}
+
+
+# ---------------------------------------------------------------------------------------------
+# extraction-vs-kernel agreement (DESIGN 3.2): what pqref answered must be what the Coq kernel computes
+# ---------------------------------------------------------------------------------------------
+def coq_sx(x):
+    """Python value (as sent to / parsed from pqref) -> Gallina term of type Sx.sx."""
+    if isinstance(x, bool):
+        return "(SZ %d%%Z)" % (1 if x else 0)
+    if isinstance(x, int):
+        return "(SZ (%d)%%Z)" % x
+    if isinstance(x, (bytes, bytearray)):
+        return "(SB [%s]%%N)" % "; ".join(str(b) for b in bytes(x))
+    if isinstance(x, str):
+        return "(SB [%s]%%N)" % "; ".join(str(b) for b in x.encode())
+    if x is None:
+        return "(SL [])"
+    return "(SL [%s])" % "; ".join(coq_sx(e) for e in x)
+
+
+def size_sx(x):
+    if isinstance(x, (bytes, bytearray, str)):
+        return len(x) + 1
+    if isinstance(x, (list, tuple)):
+        return 1 + sum(size_sx(e) for e in x)
+    return 1
+
+
+def extract_agreement(ctx, pid, cmds, outs, k=20, max_size=4000):
+    """Pick k of the (command, answer) pairs of this run (smallest first above a random offset, size-capped) and have coqc check
+    `Cmd.run command = answer` by vm_compute; every Example is one obligation."""
+    import os
+    from harness import common as C
+    cand = [(i, size_sx(list(c)) + size_sx(o)) for i, (c, o) in enumerate(zip(cmds, outs))]
+    cand = [i for i, sz in cand if sz <= max_size]
+    ctx.rng.shuffle(cand)
+    pick = sorted(cand[:k])
+    path = os.path.join(ctx.gen_dir, "ExtractAgrees_%s.v" % pid)
+    with open(path, "w") as f:
+        f.write("(* GENERATED per run: answers of the extracted pqref re-computed by the kernel's VM. *)\n")
+        f.write("From Coq Require Import NArith ZArith List.\nFrom Pq Require Import Extract.Sx Extract.Cmd.\nImport ListNotations.\n")
+        for n, i in enumerate(pick):
+            f.write("Example extract_agrees_%d : Cmd.run %s = %s.\nProof. vm_compute. reflexivity. Qed.\n" % (
+                n, coq_sx(list(cmds[i])), coq_sx(outs[i])))
+    ctx.coq_file(path)
+    return len(pick)
